@@ -1,13 +1,26 @@
 (* Correspondence cases for C44: the driver ran the real paginate on a list [0..len) . *)
-From Coq Require Import List ZArith Bool.
+From Coq Require Import String List ZArith Bool.
 Require Import MTX.Lib.IntWrap MTX.Model.C44_Paginate.
+Require Export MTX.Model.C44_Callers.
 Import ListNotations.
 Local Open Scope Z_scope.
 
 (* observed result of one call: error, or (pageCount, first item, number of items) *)
 Inductive obs := OErr | OPanic | OPage (pc first cnt : Z).
 
+(* observed answer of one list endpoint (GET /v3/<route>?itemsPerPage=..&page=.. through the real gin router, the
+   managers / configuration / recordings directory behind it holding n items): any status but 200, a panic, or the
+   decoded JSON {itemCount, pageCount, items}; an item is shipped as its index in the source list (-1 = an item that
+   is none of this endpoint's source items, e.g. a zero value or an item of another server) *)
+Inductive eobs := EStatus (code : Z) | EPanic | EList (item_count page_count : Z) (items : list Z).
+
 Inductive case :=
+    (* one request to endpoint ep whose source holds n items *)
+| Endpoint (ep n : Z) (ipp_s page_s : list Z) (o : eobs)
+    (* pages 0..pageCount (one past the end) of endpoint ep, itemsPerPage given as a number *)
+| ESweep (ep n ipp : Z) (pages : list eobs)
+    (* go/ast inventory of internal/api: every function that calls paginate, with its route and shape *)
+| Inventory (found : list (string * (string * shape)))
 | Single (len : Z) (ipp_s page_s : list Z) (o : obs)
     (* every page 0..pageCount (one past the end) of one list, ipp given as a number *)
 | Sweep (len ipp : Z) (pages : list obs).
@@ -33,8 +46,47 @@ Fixpoint decimal_fuel (fuel : nat) (n : Z) (acc : list Z) : list Z :=
   end.
 Definition decimal (n : Z) : list Z := decimal_fuel 40 n [].
 
+Definition eobs_of (r : option (response Z)) : eobs :=
+  match r with
+  | Some RBad => EStatus 400
+  | Some RPanic => EPanic
+  | Some (ROk ic pc items) => EList ic pc items
+  | None => EStatus (-1)
+  end.
+
+Fixpoint zlist_eqb (a b : list Z) : bool :=
+  match a, b with
+  | [], [] => true
+  | x :: a', y :: b' => (x =? y) && zlist_eqb a' b'
+  | _, _ => false
+  end.
+
+Definition eobs_eqb (a b : eobs) : bool :=
+  match a, b with
+  | EStatus x, EStatus y => x =? y
+  | EPanic, EPanic => true
+  | EList a1 a2 a3, EList b1 b2 b3 => (a1 =? b1) && (a2 =? b2) && zlist_eqb a3 b3
+  | _, _ => false
+  end.
+
+Definition shape_eqb (a b : shape) : bool :=
+  match a, b with ShapeItems, ShapeItems | ShapeKeys, ShapeKeys => true | _, _ => false end.
+
+Fixpoint inventory_eqb (a b : list (string * (string * shape))) : bool :=
+  match a, b with
+  | [], [] => true
+  | (r1, (h1, s1)) :: a', (r2, (h2, s2)) :: b' =>
+      String.eqb r1 r2 && String.eqb h1 h2 && shape_eqb s1 s2 && inventory_eqb a' b'
+  | _, _ => false
+  end.
+
 Definition mismatch (c : case) : bool :=
   match c with
+  | Endpoint ep n i p o => negb (eobs_eqb (eobs_of (endpoint_response ep n i p)) o)
+  | ESweep ep n ipp pages =>
+      negb (forallb (fun '(k, o) => eobs_eqb (eobs_of (endpoint_response ep n (decimal ipp) (decimal (Z.of_nat k)))) o)
+                    (combine (seq 0 (length pages)) pages))
+  | Inventory found => negb (inventory_eqb found (map snd endpoints))
   | Single len i p o => negb (obs_eqb (obs_of (paginate len i p)) o)
   | Sweep len ipp pages =>
       negb (forallb (fun '(k, o) => obs_eqb (obs_of (paginate len (decimal ipp) (decimal (Z.of_nat k)))) o)
@@ -61,8 +113,50 @@ Fixpoint consecutive (next : Z) (ipp : Z) (pages : list obs) : option Z :=
   | _ :: _ => None
   end.
 
+(* items = [first; first+1; ...] *)
+Fixpoint run_from (first : Z) (items : list Z) : bool :=
+  match items with
+  | [] => true
+  | x :: r => (x =? first) && run_from (first + 1) r
+  end.
+
+(* pages of one endpoint sweep: every answer a list with the same counts; items of the pages continue each other *)
+Fixpoint econsecutive (n pc next ipp : Z) (pages : list eobs) : option Z :=
+  match pages with
+  | [] => Some next
+  | EList ic pc' items :: r =>
+      let cnt := Z.of_nat (length items) in
+      if (ic =? n) && (pc' =? pc) && (cnt <=? ipp) && run_from next items then econsecutive n pc (next + cnt) ipp r else None
+  | _ :: _ => None
+  end.
+
 Definition spec_fail (c : case) : bool :=
   match c with
+  | Endpoint ep n i p o =>
+      let valid := valid_param i false && valid_param p true in
+      match o with
+      | EStatus code => negb ((code =? 400) && negb valid)
+      | EPanic => true
+      | EList ic pc items =>
+          negb valid ||
+          let ipp := match i with [] => 100 | _ => value 0 i end in
+          let page := value 0 p in
+          let cnt := Z.of_nat (length items) in
+          negb ((ic =? n) && (pc * ipp >=? n) && ((pc - 1) * ipp <? Z.max n 1) && (if n =? 0 then pc =? 0 else true)
+                && (if page * ipp <? n then run_from (page * ipp) items && (cnt =? Z.min ipp (n - page * ipp)) else cnt =? 0))
+      end
+  | ESweep ep n ipp pages =>
+      match pages with
+      | EList _ pc _ :: _ =>
+          negb ((Z.of_nat (length pages) =? pc + 1) &&
+                match econsecutive n pc 0 ipp (firstn (Z.to_nat pc) pages) with
+                | Some m => m =? n
+                | None => false
+                end &&
+                match nth (Z.to_nat pc) pages EPanic with EList ic pc' [] => (ic =? n) && (pc' =? pc) | _ => false end)
+      | _ => true
+      end
+  | Inventory _ => false
   | Single len i p o =>
       let valid := valid_param i false && valid_param p true in
       match o with
